@@ -334,6 +334,8 @@ def gen_case(item, rng, tier):
             reg0['sys']['sctlr'] &= ~1                 # MPU / MMU off: the accesses reach the device
     if item['k'] == 'stream' and rng.random() < 0.06:
         core['twin'] = rng.choice([20, 50, 100])
+    if item['k'] in ('stream', 'sweep16') and rng.random() < 0.08:
+        core['custom_fetch'] = True          # an integrator's fetch unit in place of the stock fetch_instruction() (sim/machine.py)
     return {'scenario': 'corrupt', 'kind': item['k'], 'cores': [core], 'events': events,
             'max_ticks': nt + 4, 'stop_at_done': False}
 
